@@ -333,7 +333,8 @@ def _handover_unit(m):
 def _deactivations(fi):
     """calls of a deactivation callback: a local taken out of self.inputCallbacks (loop over .values(), .get(...))"""
     return [c for c in calls_in(fi.node) if isinstance(c.func, ast.Name) and
-            any(v is not None and 'inputCallbacks' in src(v) for v, st, how in local_assigns(fi.node, c.func.id))]
+            any(v is not None and ('inputCallbacks' in src(v) or 'inputCallbacks' in src(resolved(v, fi.node)))        # (`for cb in callbacks:` with callbacks bound before)
+                for v, st, how in local_assigns(fi.node, c.func.id))]
 
 
 @rule('C18.R4d', min_instances=1)
@@ -381,7 +382,7 @@ def handover_pairing(ctx):
         n += 1
         ctx.analysed(fi)
         deact = _deactivations(fi)
-        loop = any(isinstance(a, ast.For) and 'inputCallbacks' in src(a.iter) for c in deact for a in ancestors(c))
+        loop = any(isinstance(a, ast.For) and ('inputCallbacks' in src(a.iter) or 'inputCallbacks' in src(resolved(a.iter, fi.node))) for c in deact for a in ancestors(c))
         ctx.check(bool(deact) and loop, f'{fi.qualname}:store controlled_by paired with deactivation', st[0][2],
                   'the other inputs are deactivated in the same function',
                   'controlled_by is changed without switching the previous controller(s) off: two inputs are marked as controlling', fi)
@@ -413,6 +414,17 @@ def handover_pairing(ctx):
             continue
         if dcalls and all(i in good and i not in bad_ for i in dcalls) and all(cfga.dominates([t.id], i) for i in dcalls):
             skip_self = True
+    if not skip_self:
+        # the selection may be the filter of a generator expression the loop runs over: `(cb for name, cb in ...items() if name != me)`
+        for c in _deactivations(ac):
+            for a in ancestors(c):
+                if isinstance(a, ast.For):
+                    it = resolved(a.iter, ac.node)
+                    for g in [x for x in ast.walk(it) if isinstance(x, (ast.GeneratorExp, ast.ListComp))]:
+                        for cond in [t for gen in g.generators for t in gen.ifs]:
+                            if isinstance(cond, ast.Compare) and len(cond.ops) == 1 and isinstance(cond.ops[0], ast.NotEq) and \
+                                    me in (src(resolved(cond.left, ac.node)), src(resolved(cond.comparators[0], ac.node))):
+                                skip_self = True
     ctx.check(skip_self, f'{ac.qualname}:does not deactivate itself', ac.node, '`if name != self.name` guards the deactivation',
               'taking over control deactivates the new controller itself', ac)
 
@@ -587,7 +599,12 @@ def hand_over_switches_both_sides(ctx):
         if t.kind == 'test' and src(t.ast).replace('not ', '') == 'self.controlled_by':
             neg = src(t.ast).startswith('not ')
             side = cfgs.reach([t.id], labels={'F' if neg else 'T'}, avoid=[t.id])
-            st = {i for tg, v, s in attr_stores(sc.node) if tg.attr == 'controlled_by' and isinstance(v, ast.Constant) and v.value == 0 for i in cfgs.node_of(s)}
+            def zero(v):
+                if isinstance(v, ast.Attribute) and dotted(v.value) in ('self', 'cls'):
+                    _, cv = m.class_attr('frappy.mixins.HasControlledBy', v.attr)      # a class constant: SELF_CONTROL = 0
+                    v = cv if cv is not None else v
+                return isinstance(v, ast.Constant) and v.value == 0 and not isinstance(v.value, bool)
+            st = {i for tg, v, s in attr_stores(sc.node) if tg.attr == 'controlled_by' and v is not None and zero(v) for i in cfgs.node_of(s)}
             de = {i for c in _deactivations(sc) for i in cfgs.node_of(c)}
             ctx.check(bool(st) and st <= side and bool(de) and de <= side, f'{sc.qualname}:controllers are switched off when the output takes over', t.ast,
                       'controlled_by = 0 and the deactivation loop on the controlled side',
